@@ -21,7 +21,7 @@ fn strip_quotes(key: &str) -> &str {
 }
 
 /// AltA: objects as an association list, one number type
-#[derive(Clone, Debug, PartialEq)]
+#[derive(Clone, Debug)]
 pub enum AltA {
     Null,
     Bool(bool),
@@ -29,6 +29,24 @@ pub enum AltA {
     Str(String),
     Arr(Vec<AltA>),
     Obj(Vec<(String, AltA)>),
+}
+
+/// `PartialEq` is a bound of the trait, not an accessor either. AltA's is JSON equality (numbers by value whatever
+/// their origin, members regardless of order) - unlike serde_json's, which tells 2 from 2.0 - while AltB and AltS keep
+/// the derived, representation-sensitive one: an engine that decides a query through `==` on the implementing type
+/// gives different answers over different faithful views.
+impl PartialEq for AltA {
+    fn eq(&self, o: &AltA) -> bool {
+        match (self, o) {
+            (AltA::Null, AltA::Null) => true,
+            (AltA::Bool(a), AltA::Bool(b)) => a == b,
+            (AltA::Num(a, _), AltA::Num(b, _)) => a == b,
+            (AltA::Str(a), AltA::Str(b)) => a == b,
+            (AltA::Arr(a), AltA::Arr(b)) => a == b,
+            (AltA::Obj(a), AltA::Obj(b)) => a.len() == b.len() && a.iter().all(|(k, v)| b.iter().any(|(k2, v2)| k == k2 && v == v2)),
+            _ => false,
+        }
+    }
 }
 
 /// `Default` is a bound of the trait, not an accessor: nothing says it is JSON null, and the three views choose three
@@ -653,6 +671,13 @@ pub fn run(tier: &str) -> i32 {
         for (l, _) in &lits {
             qs.push(format!("$[?@.x{}{}]", op.text(), l));
             qs.push(format!("$[?{}{}@.y]", l, op.text()));
+            // both operands computed by the engine (function result / literal): no node of the document involved
+            qs.push(format!("$[?length(@.x){}{}]", op.text(), l));
+            qs.push(format!("$[?{}{}count(@.y.*)]", l, op.text()));
+            qs.push(format!("$[?length(value(@.x)){}{}]", op.text(), l));
+            for (l2, _) in lits.iter().take(12) {
+                qs.push(format!("$[?{}{}{}]", l, op.text(), l2));
+            }
         }
     }
     for f in ["match", "search"] {
